@@ -983,6 +983,13 @@ func peekRule(c *core.Ctx) {
 			continue
 		}
 		want, total, why1 := headerFieldSources(rd, false)
+		if why1 != "" {
+			// ReadHeader written with a loop, through locals or returning a literal: the wire-effect extractor gives the same
+			// (field, offset, width) table from the reads in order
+			if w2, t2, ok := readHeaderLayout(c, rel); ok {
+				want, total, why1 = w2, t2, ""
+			}
+		}
 		got, _, why2 := headerFieldSources(fn, true)
 		var lp []string
 		if why1 != "" {
@@ -1227,4 +1234,45 @@ func headerFieldSources(fn *ssa.Function, peek bool) (map[string]hdrSrc, int64, 
 		}
 	}
 	return out, total, why
+}
+
+// readHeaderLayout: the fields ReadHeader fills, with the offset and width at which each is read (engine E1: the reads in
+// order, loops over fixed-size arrays unrolled).
+func readHeaderLayout(c *core.Ctx, rel string) (map[string]hdrSrc, int64, bool) {
+	fn := c.Prog.LookupFunc(rel, "ReadHeader")
+	if fn == nil {
+		return nil, 0, false
+	}
+	x := &wire.Extractor{Prog: c.Prog}
+	seq, err := x.ExtractFunc(fn, false)
+	if err != nil || len(seq.Opaque) > 0 || len(seq.Ops) == 0 {
+		return nil, 0, false
+	}
+	out := map[string]hdrSrc{}
+	off := int64(0)
+	for _, o := range seq.Ops {
+		if o.Kind != wire.INT || o.Field.IsZero() {
+			return nil, 0, false
+		}
+		var sb strings.Builder
+		for i, e := range o.Field.Elems {
+			switch {
+			case e.Field != nil:
+				if i > 0 {
+					sb.WriteString(".")
+				}
+				sb.WriteString(e.Field.Name())
+			case e.Each:
+				return nil, 0, false
+			default:
+				fmt.Fprintf(&sb, "[%d]", e.Index)
+			}
+		}
+		if _, dup := out[sb.String()]; dup {
+			return nil, 0, false
+		}
+		out[sb.String()] = hdrSrc{off, int64(o.Width)}
+		off += int64(o.Width)
+	}
+	return out, off, true
 }
